@@ -266,6 +266,10 @@ Proof.
       intros H; apply keep_panic in H; destruct H as [H|H]; [auto | discriminate].
   - destruct (th_kind t); simpl; split_ifs; simpl; auto;
       intros H; try discriminate; try (apply keep_panic in H; destruct H as [H|H]; [auto | discriminate]).
+    all: match goal with
+         | Hc : _ && negb (fx_tx_guard _) = true |- _ =>
+           apply andb_true_iff in Hc; destruct Hc as [_ Hn]; apply negb_true_iff in Hn; auto
+         end.
   - simpl. intros H. apply keep_panic in H. destruct H as [H|H]; [auto|].
     destruct (disposing d); discriminate.
   - destruct (locked d); simpl; auto.
